@@ -127,7 +127,8 @@ def engine_part(ck: Check, cm, rnd):
             break
     # real executor, several numba thread counts and worker counts
     nt0 = numba.get_num_threads()
-    combos = [(1, 1), (4, 4), (16, nt0)] if ck.quick else [(w, t) for w in (1, 2, 3, 5, 16) for t in sorted({1, 4, nt0})]
+    # including more workers than numba threads (W > nt)
+    combos = [(1, 1), (4, 4), (5, 2), (16, 4), (16, nt0)] if ck.quick else [(w, t) for w in (1, 2, 3, 5, 16) for t in sorted({1, 2, 4, nt0})]
     try:
         for W, nt in combos:
             numba.set_num_threads(max(1, min(nt, nt0)))
